@@ -3,6 +3,7 @@ use serde_json::Value;
 
 pub mod p04;
 pub mod p05;
+pub mod p06;
 pub mod p19;
 pub mod p20;
 pub mod pcli;
@@ -10,6 +11,7 @@ pub mod pdelete;
 pub mod pexec;
 pub mod pexpr;
 pub mod pglob;
+pub mod ppipe;
 pub mod pnum;
 pub mod pprintf;
 pub mod pstat;
@@ -50,6 +52,8 @@ pub fn get(name: &str) -> Option<Box<dyn Prop>> {
         "C09" => Some(Box::new(pexec::PExec::new("C09"))),
         "C08" => Some(Box::new(pexec::PExec::new("C08"))),
         "C10" => Some(Box::new(pdelete::PDelete::default())),
+        "C07" => Some(Box::new(ppipe::PPipe::default())),
+        "C06" => Some(Box::new(p06::P06::default())),
         "C04" => Some(Box::new(p04::P04::default())),
         "C05" => Some(Box::new(p05::P05::default())),
         "C19" => Some(Box::new(p19::P19::default())),
